@@ -796,16 +796,14 @@ PROPS = {
     ),
     "C06": dict(
         modules=["C06", "C06Sys"],
-        theorems=['c06_settle_idempotent', 'c06_step_settled', 'c06_reachable_settled', 'c06_sys_rejected_is_identity', 'c06_sys_rejected_single', 'c06_sys_rejected_is_identity_reachable', 'c06_rejected_invisible_forever', 'c06_rejected_invisible_in_history', 'c06_sys_batch_rejected_prefix', 'c06_same_verdict', 'c06_never_rejected', 'c06_sys_same_verdict', 'c06_sys_same_verdict_csys', 'c06_sys_same_verdict_sysRef', 'c06_sys_same_verdict_reachable', 'c06_sys_same_verdict_c01', 'c06_sys_batch_same_verdict'] + ["c06_rejected_record_noop", "c06_err_is_noop", "c06_rejected_call_noop",
-                  "c06_batch_rejected_entry_noop", "c06_spec_rejects_vote", "c06_spec_rejects_commit"],
+        theorems=['c06_rejected_record_noop', 'c06_err_is_noop', 'c06_rejected_call_noop', 'c06_batch_rejected_entry_noop', 'c06_spec_rejects_vote', 'c06_spec_rejects_commit', 'c06_batch_refused_entry_noop', 'c06_batch_rejected_entry_noop_any', 'c06_settle_idempotent', 'c06_step_settled', 'c06_reachable_settled', 'c06_sys_rejected_is_identity', 'c06_sys_rejected_single', 'c06_sys_rejected_is_identity_reachable', 'c06_rejected_invisible_forever', 'c06_rejected_invisible_in_history', 'c06_sys_batch_rejected_prefix', 'c06_same_verdict', 'c06_never_rejected', 'c06_sys_same_verdict', 'c06_sys_same_verdict_csys', 'c06_sys_same_verdict_sysRef', 'Sys.runCycles_settled', 'c06_sys_same_verdict_reachable', 'c06_sys_same_verdict_c01', 'c06_sys_batch_same_verdict', 'c06_same_verdict_any', 'c06_sys_same_verdict_any'],
         gen=scripts_c06, project=proj_c06, footprint=footprint_c06, oracle=oracle_c06,
         explanation="a rejected call is a no-op on the whole model state",
         assumptions=OS_ASSUMPTIONS,
     ),
     "C16": dict(
-        modules=["C16", "C16Read"],
-        theorems=['c16_lookup_trichotomy', 'c16_read_no_panic_of_inv', 'c16_read_no_panic_reachable', 'c16_read_no_panic_c07', 'c16_read_no_panic_cycles', 'c16_open_no_panic_of_inv', 'c16_open_no_panic_clean', 'c16_open_no_panic_of_small', 'c16_open_no_panic_reachable', 'c16_open_no_panic_history'] + ["c16_call_no_panic_partial", "c16_fresh_panicFree", "c16_history_no_panic_partial",
-                  "c16_read_inverted_empty", "c16_truncate_zero_is_error", "c16_witness_u64_max"],
+        modules=["C16", "C16Read", "C16All2"],
+        theorems=['c16_call_no_panic_partial', 'c16_fresh_panicFree', 'c16_history_no_panic_partial', 'c16_read_inverted_empty', 'c16_truncate_zero_is_error', 'c16_u64_max_is_refused', "c16_u64_max_is_refused'", 'c16_u64_max_is_refused_witness', 'c16_internal_overflow_branch', 'c16_lookup_trichotomy', 'c16_read_no_panic_of_inv', 'c16_read_no_panic_reachable', 'c16_read_no_panic_c07', 'c16_read_no_panic_cycles', 'c16_open_no_panic_of_inv', 'c16_open_no_panic_clean', 'cycles_smallSys', 'c16_open_no_panic_of_small', 'c16_open_no_panic_reachable', 'c16_open_no_panic_history', 'c16_call_no_panic', 'c16_panicFree_spec', 'c16_history_no_panic_store', 'c16_history_no_panic', 'c16_reachable_panicFree', 'c16_open_no_panic_history_all', 'c16_recovery_never_panics', 'c16_call_keeps_small_journal', 'call_ok_D12', 'call_SJ_D12', 'run_RecInv_D12', 'RecInv_D12.crash_fsSmall'],
         gen=scripts_c16, project=proj_c16, oracle=oracle_c16,
         explanation="no panic branch of the checked-arithmetic model is reachable",
         assumptions=OS_ASSUMPTIONS + ["harness built with overflow-checks and debug-assertions on"],
